@@ -548,6 +548,11 @@ func (w *twkbWriter) writePointArray(numPoints int, coords []float64) {
 }
 
 func (w *twkbWriter) writeAdditionalHeaders() {
+	if w.isEmpty {
+		// Empty geometries only carry the "is empty" flag. Their metadata
+		// header doesn't announce a size or bbox, so none must be written.
+		return
+	}
 	// These are written in this order so that the size of the
 	// bbox is included in the size computation.
 	if w.hasBBox {
